@@ -59,7 +59,7 @@ def handle (ws : List String) : String :=
          s!"H {showCfg h keys fams} | B {showCfg b keys fams} | P {showCfg pc keys fams} incons={if inc then 1 else 0}"
        | _, _ => "err")
     | _, _, _ => "bad-op"
-  | ["live", f, p] =>
+  | ["live", f, p] | ["live-delay", f, p] =>   -- both copies of the negotiation code (OpenSent / Active+DelayOpen)
     match parseFams f, bytesOfHex p with
     | some cf, some pb =>
       (match openInfo pb with
